@@ -272,6 +272,35 @@ Section Parity.
       rewrite dot_x_za, !dot_x_zb by assumption. rewrite Nat.ltb_irrefl, Nat.leb_refl. reflexivity.
     Qed.
 
+    (** the string of the occupation number has Z exactly on sites i-1 and i *)
+    Lemma nth_bxor (a : list bool) : forall b k, length a = length b ->
+      nth k (bxor a b) false = xorb (nth k a false) (nth k b false).
+    Proof.
+      induction a as [|x a IH]; intros [|y b] k H; try discriminate; [destruct k; reflexivity|].
+      cbn in H. injection H as H. rewrite bxor_cons. destruct k; [reflexivity|]. cbn [nth]. apply IH; assumption.
+    Qed.
+    Lemma nth_unit j : forall m k, nth k (repeat false j ++ true :: repeat false m) false = Nat.eqb k j.
+    Proof.
+      induction j as [|j IH]; intros m k.
+      - destruct k as [|k]; [reflexivity|]. cbn [repeat app nth Nat.eqb].
+        revert k. induction m as [|m IHm]; intros [|k]; try reflexivity. apply IHm.
+      - destruct k as [|k]; [reflexivity|]. cbn [repeat app nth Nat.eqb]. apply IH.
+    Qed.
+    Lemma nth_zeros m : forall k, nth k (repeat false m) false = false.
+    Proof. induction m as [|m IH]; intros [|k]; try reflexivity. apply IH. Qed.
+
+    Lemma parZZ_nth i k : (i < n)%nat -> (k < n)%nat ->
+      nth k (pz (parZZ i)) false = (Nat.eqb (Datatypes.S k) i || Nat.eqb k i).
+    Proof.
+      intros Hi Hk. cbn [parZZ pz].
+      rewrite nth_bxor by (rewrite par_za_length, par_zb_length by assumption; reflexivity).
+      unfold par_za, par_zb. cbn [app]. rewrite nth_unit.
+      destruct i as [|i]; cbn [Nat.eqb].
+      - rewrite nth_zeros. destruct (Nat.eqb k 0); reflexivity.
+      - rewrite Nat.sub_succ, Nat.sub_0_r, nth_unit.
+        destruct (Nat.eqb_spec k i), (Nat.eqb_spec k (Datatypes.S i)); try lia; reflexivity.
+    Qed.
+
     (** A_i^dagger A_i = h (1 - Z_{i-1} Z_i)   (h (1 - Z_0) for i = 0) *)
     Theorem par_number i : (i < n)%nat ->
       meq n (mmul n (EL (true, i)) (EL (false, i)))
